@@ -64,6 +64,7 @@ class State:
         self.steps = 0
         self.notes = set()
         self.arith = []     # checked (overflow-guarded) arithmetic on symbolic operands, in execution order
+        self.arith_results = []   # the value each of those operations produced (same order)
         self.result = None
 
     def copy(self):
@@ -84,6 +85,7 @@ class State:
         s.steps = self.steps
         s.notes = set(self.notes)
         s.arith = list(self.arith)
+        s.arith_results = list(self.arith_results)
         s.result = self.result
         return s
 
@@ -744,6 +746,7 @@ class Sim:
                 ovf = m is not None and wrap_int(m, ty_a) != m
             else:
                 st.arith.append((base, repr(a), repr(b)))
+                st.arith_results.append(r)
             return Struct(tuple_ty([ty_a, prim("bool")]), (r, Const(ovf, prim("bool"))))
         return r
 
@@ -775,6 +778,7 @@ class Sim:
                     return Term("Neg", (a,), ta)
                 if not isinstance(a, Const):
                     st.arith.append(("Neg", repr(a), ""))      # integer negation overflows for MIN: part of the arithmetic footprint
+                    st.arith_results.append(int_neg(a, ta))
                 return int_neg(a, ta)
             if rv["op"] == "PtrMetadata":
                 return self.ptr_len(st, a)
